@@ -252,7 +252,7 @@ func WriteStore(ctx context.Context, cc cache.Client, ds string, store cachepb.S
 		if n == nil {
 			return fmt.Errorf("no node for %s", k)
 		}
-		tv := TVFromDenotation(n, c[k])
+		tv := StoredTVFromDenotation(n, c[k])
 		b, err := proto.Marshal(tv)
 		if err != nil {
 			return err
